@@ -372,7 +372,7 @@ func (e *retryEngine) Exec(f []string) Result {
 			}
 		}
 	}
-	r.Props = retryOracles(run, cfg, settled, stuck, len(plan) > 0, waits)
+	r.Props = retryOracles(run, cfg, settled, stuck, len(plan) > 0, waits, plan)
 	return r
 }
 
